@@ -130,6 +130,14 @@ def shard(ctx):
     i = ctx.shard
     while ctx.running():
         i += 1
+        if i % 700 == 350:
+            from vlib import hostile
+            check(ctx, hostile.bulk_statement(rng),
+                  rng.choice([{}, {'strip_whitespace': True},
+                              {'use_space_around_operators': True},
+                              {'reindent': True}, {'keyword_case': 'upper'}]),
+                  ('bulk',))
+            continue
         x = rng.random()
         trigger = None
         if x < 0.08:
